@@ -181,9 +181,14 @@ def r3(ctx: Ctx):
              'an already exhausted generator is stopped with an error: its'
              ' clean end-of-stream is replaced by a timeout', node=fi.node)
   # the exception type: TimeoutError unless fatal
+  stop_arg = None
+  for x in walk_no_nested(fi.node):
+    if isinstance(x, ast.Call) and unparse(x.func) == 'self._generator.maybe_stop' and x.args and isinstance(
+        x.args[0], ast.Name):
+      stop_arg = x.args[0].id
   excs = [unparse(x.value.func) for x in walk_no_nested(fi.node) if isinstance(x, ast.Assign)
           and isinstance(x.value, ast.Call) and isinstance(x.targets[0], ast.Name)
-          and x.targets[0].id == 'e']
+          and x.targets[0].id == stop_arg]
   if 'TimeoutError' in excs:
     ctx.ok(rule, fi, 'non-fatal stop delivers a retriable TimeoutError', fi.node)
   else:
@@ -210,14 +215,21 @@ def r4(ctx: Ctx):
     ctx.fail(rule, fi, '_next_batch: self._generator.get_batch(batch_size, block=True)',
              'the batch is not a blocking get of the requested size: clients'
              ' receive short or empty batches and spin', node=fi.node)
+  batchv = None
+  for x in walk_no_nested(fi.node):
+    if isinstance(x, ast.Assign) and isinstance(x.targets[0], ast.Name) and isinstance(x.value, ast.Call) and (
+        unparse(x.value.func) == 'self._generator.get_batch'):
+      batchv = x.targets[0].id
+  if batchv is None:
+    raise AnalysisError(f'{rule}: _next_batch does not keep the batch in a local')
   appends = [n for n in g.nodes if any(
-      isinstance(x, ast.Call) and unparse(x.func) == 'result.append' for x in cfgm.node_exprs(n))]
+      isinstance(x, ast.Call) and unparse(x.func) == f'{batchv}.append' for x in cfgm.node_exprs(n))]
   exh = lambda c: c.kind == 'cond' and unparse(c.ast) in ('not self._generator', 'self._generator.exhausted',
                                                           'not bool(self._generator)')
   reach = g.reachable([g.entry], edge_ok=lambda a, b, lab: lab not in ('exc', 'close') and not (
       exh(a) and lab == 'true'))
   if not appends:
-    ctx.fail(rule, fi, '_next_batch: result.append(<marker>)',
+    ctx.fail(rule, fi, '_next_batch: <batch>.append(<marker>)',
              'no end marker is ever appended: the client never learns the'
              ' generator ended', node=fi.node)
   elif any(a in reach for a in appends):
@@ -228,7 +240,7 @@ def r4(ctx: Ctx):
     ctx.ok(rule, fi, 'marker only when exhausted', appends[0].ast)
   kinds = set()
   for a in appends:
-    c = [x for x in cfgm.node_exprs(a) if isinstance(x, ast.Call) and unparse(x.func) == 'result.append'][0]
+    c = [x for x in cfgm.node_exprs(a) if isinstance(x, ast.Call) and unparse(x.func) == f'{batchv}.append'][0]
     arg = c.args[0]
     if isinstance(arg, ast.Call) and unparse(arg.func) == 'StopIteration' and arg.args and isinstance(
         arg.args[0], ast.Starred) and 'returned' in unparse(arg.args[0]):
@@ -260,7 +272,12 @@ def r4(ctx: Ctx):
         rets = [n for n in r if isinstance(n.ast, ast.Return)]
         te = any(isinstance(n.ast, ast.Assign) and isinstance(n.ast.value, ast.Call)
                  and unparse(n.ast.value.func) == 'TimeoutError' for n in r)
-        if rets and te and all('dumps([e])' in unparse(x.ast) for x in rets):
+        tev = [n.ast.targets[0].id for n in r if isinstance(n.ast, ast.Assign) and isinstance(n.ast.value, ast.Call)
+               and unparse(n.ast.value.func) == 'TimeoutError' and isinstance(n.ast.targets[0], ast.Name)]
+        if rets and te and tev and all(any(
+            isinstance(c_, ast.Call) and unparse(c_.func).endswith('dumps') and c_.args
+            and isinstance(c_.args[0], ast.List) and [unparse(e_) for e_ in c_.args[0].elts] == [tev[0]]
+            for c_ in ast.walk(x.ast)) for x in rets):
           ok = True
   if ok:
     ctx.ok(rule, fi, 'no generator -> [TimeoutError]', fi.node)
